@@ -163,6 +163,9 @@ func body(sc *Scenario) func() {
 				if sc.CondErr == tc.Name {
 					st.Condition = "missing-cmd"
 				}
+				if len(tc.StageEnv) > 0 {
+					st.Env = variables.FromMap(tc.StageEnv)
+				}
 				stages = append(stages, st)
 			}
 			var err error
@@ -218,6 +221,9 @@ func body(sc *Scenario) func() {
 			for _, n := range ns {
 				st, _ := g.Node(n)
 				vrt.Emit("stage", fmt.Sprintf("%s=%d|errored=%v", n, st.Status, st.Task.Errored))
+			}
+			if sc.DirectAfter != "" {
+				runOne(sc.DirectAfter)
 			}
 		}
 		wg.Wait()
